@@ -426,7 +426,7 @@ HOSTILE = [
 
 # =============================================================================== Coq side
 IMPORTS = (CASES_HEADER.replace("QArith ", "") +
-           "From Coq Require Import Floats.\n"
+           "From Coq Require Import PrimFloat SpecFloat.\n"
            "From PV Require Import C20.Ast C20.ExprModel C20.PyValue.\nOpen Scope string_scope.\n")
 EXN = {"TypeError", "ZeroDivisionError", "IndexError", "ValueError", "OverflowError", "NameError"}
 
@@ -477,29 +477,34 @@ def cx(xj):
 
 
 def coq_file(recs):
-    items = []
-    for r in recs:
+    """One small Definition per tree (elaborating one huge list literal is super-linear)."""
+    defs = []
+    for k, r in enumerate(recs):
         evs = []
         for e in r["evals"]:
             evs.append("(%s, %s, %s)" % (cx(e["x"]), cres(e["impl"]), cres(e["cpy"])))
-        items.append("(%s,\n [%s])" % (r["coq"], "; ".join(evs)))
-    return IMPORTS + """
-Definition cases : list tcase := [
-%s].
-Eval vm_compute in map (fun c : tcase => Z.b2z (model_accepts (fst c)) :: Z.b2z (shape (fst c)) :: verdicts c) cases.
-""" % ";\n".join(items)
+        defs.append("Definition c%d : tcase := (%s,\n [%s])." % (k, r["coq"], "; ".join(evs)))
+    rows = "\n".join(
+        "Eval vm_compute in (Z.b2z (model_accepts (fst c%d)) :: Z.b2z (shape (fst c%d)) :: verdicts c%d)." % (k, k, k)
+        for k in range(len(recs)))
+    return IMPORTS + "\n".join(defs) + "\n" + rows + "\n"
 
 
 def parse_ll(out):
-    m = re.search(r"=\s*(\[.*\])\s*:\s*list \(list Z\)", out, re.S)
-    if not m:
-        raise RuntimeError("unexpected coqc output: " + out[-500:])
-    return json.loads(m.group(1).replace(";", ","))
+    rows = []
+    for m in re.finditer(r"=\s*(\[[^\]]*\])\s*:\s*list Z", out):
+        rows.append(json.loads(m.group(1).replace(";", ",")))
+    return rows
 
 
 # =============================================================================== the check
 def node_kinds(coq):
     return sorted(set(re.findall(r"\((Constant|Name|Tuple|EList|UnaryOp|BinOp|BoolOp|Compare|Subscript|Slice|Other)\b", coq or "")))
+
+
+def root_kind(coq):
+    m = re.match(r"\((\w+)", coq or "")
+    return m.group(1) if m else "?"
 
 
 def run(chk: Check):
@@ -543,7 +548,7 @@ def run(chk: Check):
     seen = set()
     req = []
     origin = []
-    per_string = 16 if T else 4
+    per_string = 8 if T else 4
     fixed_x = {c["src"]: c.get("xs") for c in corpus}
     for name, strs in streams.items():
         for s in strs:
@@ -561,8 +566,17 @@ def run(chk: Check):
             req.append([s, xs])
             origin.append(name)
     t_impl = time.time()
-    use = [k for k, o in enumerate(origin) if o in ("corpus", "hostile") or k % (5 if T else 23) == 0]
-    impl = run_impl("c20_impl.py", {"strings": req, "use_sites": use}, timeout=3000)
+    use = set(k for k, o in enumerate(origin) if o in ("corpus", "hostile") or k % (5 if T else 23) == 0)
+    impl = {"records": [], "tables": None}
+    batch = 30000  # bounds the size of one JSON exchange with the runner
+    for b0 in range(0, len(req), batch):
+        part = run_impl("c20_impl.py", {"strings": req[b0:b0 + batch],
+                                        "use_sites": [k - b0 for k in use if b0 <= k < b0 + batch]}, timeout=3000)
+        impl["records"] += part["records"]
+        if impl["tables"] is None:
+            impl["tables"] = part["tables"]
+        elif part["tables"] != impl["tables"]:
+            corr_broken.append("whitelist tables changed between runner batches")
     t_impl = time.time() - t_impl
     recs = impl["records"]
     for r, o in zip(recs, origin):
@@ -603,7 +617,7 @@ def run(chk: Check):
                           "construction triggered evaluation (audit events %s, %d _eval calls)" % (r["events"], r["eval_calls_in_init"]), wit)
         if r["parse"] == "ok" and r.get("in_grammar") is not None:
             if c == "ok" and not r["in_grammar"]:
-                chk.violation("C20:Expression.__init__:accepted-outside-grammar:" + ",".join(node_kinds(r.get("coq"))),
+                chk.violation("C20:Expression.__init__:accepted-outside-grammar:" + r.get("offender", "?"),
                               "a string outside the property's grammar is accepted", wit)
             if c == "InvalidExpression" and r["in_grammar"]:
                 chk.violation("C20:Expression.__init__:rejected-inside-grammar:" + r.get("message", "")[:30],
@@ -629,13 +643,13 @@ def run(chk: Check):
                     chk.violation("C20:Expression._eval:accepted-then-unsupported-at-call:" + cls_,
                                   "an accepted expression raises InvalidExpression('%s') when evaluated; Python gives %s" % (msg, b), w)
                 else:
-                    chk.violation("C20:Expression.__call__:differs-from-python:" + ",".join(node_kinds(r.get("coq"))),
+                    chk.violation("C20:Expression.__call__:differs-from-python:" + root_kind(r.get("coq")),
                                   "value/exception differs from Python's", w)
-            elif "trace_impl" in e and (e["trace_impl"] != e["trace_cpy"] or not e["traced_equal"]):
+            elif "trace_impl" in e or e.get("traced_equal") is False:
                 viol_cases.add((i, j))
                 chk.violation("C20:Expression.__call__:evaluation-order",
                               "the subscriptions performed on x differ from Python's (order, short-circuit or evaluate-once)",
-                              dict(w, trace_impl=e["trace_impl"], trace_python=e["trace_cpy"]))
+                              dict(w, trace_impl=e.get("trace_impl"), trace_python=e.get("trace_cpy")))
     # ---- search at the use sites of piquasso/api/instruction.py
     n_use = n_use_eval = 0
     for r in recs:
